@@ -1,8 +1,11 @@
 # setup: build the LLVM fact extractor (offline; LLVM 14 C++ API from /usr/lib/llvm-14)
 LLVM_CXXFLAGS := $(shell llvm-config-14 --cxxflags)
-all: bin/irfacts
+all: bin/irfacts bin/irspec
 bin/irfacts: tools/irfacts.cc
 	mkdir -p bin
 	clang++ $(LLVM_CXXFLAGS) -std=c++17 -fno-rtti -O1 tools/irfacts.cc -o bin/irfacts /usr/lib/llvm-14/lib/libLLVM-14.so
+bin/irspec: tools/irspec.cc
+	mkdir -p bin
+	clang++ $(LLVM_CXXFLAGS) -std=c++17 -fno-rtti -O1 tools/irspec.cc -o bin/irspec /usr/lib/llvm-14/lib/libLLVM-14.so
 clean:
 	rm -rf bin
